@@ -218,8 +218,9 @@ class Soak:
         api = self.api
         done = []
         mods = [m for m in o.modules if m is not None] if isinstance(o, api.Project) else ([o.module] if o.module is not None else [])
+        repr(o), str(o), f"{o!s:>5}", bool(o)
         for m in mods[:6]:
-            repr(m), str(m), dir(m)
+            repr(m), str(m), dir(m), f"{m}", bool(m), m == m, hash(m)
             list(m.controllers), list(m.options)
             for name in list(type(m).controllers)[:40]:
                 try:
@@ -231,6 +232,7 @@ class Soak:
         if isinstance(o, api.Project):
             for q in o.patterns[:6]:
                 if isinstance(q, api.Pattern):
+                    repr(q), str(q), f"{q}", q == q, (hash(q) if q.__hash__ else None)
                     q.tabular_repr()
                     for line in q.data[:4]:
                         for n in line[:4]:
